@@ -196,7 +196,7 @@ def check_case(case):
         raise core.HarnessError("reference run is not n distinct calls")
 
     # ---- sow ---------------------------------------------------------------
-    d = core.fresh_dir("c07.batches.xyz-result-2")
+    d = core.fresh_dir("c07.batches[2].xyz-result-2")
     kws = {}
     if mode != "default":
         kws[mode] = req
